@@ -13,6 +13,9 @@
 #include <ctime>
 #include <cstdlib>
 #include <memory>
+#include <csignal>
+#include <unistd.h>
+#include <sys/wait.h>
 
 using namespace icinga;
 
@@ -198,4 +201,42 @@ VOP(tp_now)
 {
 	TpFix& f = Get(a);
 	Out(std::string("tp_now ") + a.str("name") + " is_inside=" + (f.tp->GetIsInside() ? "1" : "0"));
+}
+
+namespace {
+struct TpNullUtils : public ValidationUtils {
+	bool ValidateName(const String&, const String&) const override { return true; }
+};
+}
+
+// tp_parse k=<hex day definition> [limit=<s>] [ast=...] : what config validation does with this ranges key
+// (TimePeriod::ValidateRanges -> LegacyTimePeriod::ParseTimeRange), in a forked child under a watchdog:
+// res=ok | rejected (ValidationError) | hang (still running after <limit> seconds of real time) | crash
+VOP(tp_parse)
+{
+	std::string def = HexDec(a.str("k"));
+	unsigned limit = (unsigned)a.num("limit", 3);
+	pid_t pid = fork();
+	if (pid < 0) throw std::runtime_error("fork failed");
+	if (pid == 0) {
+		signal(SIGALRM, SIG_DFL);
+		alarm(limit);
+		int rc = 0;
+		try {
+			TimePeriod::Ptr tp = new TimePeriod();
+			Dictionary::Ptr r = new Dictionary({ { String(def), String("00:00-24:00") } });
+			TpNullUtils utils;
+			tp->ValidateRanges(Lazy<Dictionary::Ptr>(r), utils);
+		} catch (...) {
+			rc = 3;
+		}
+		_exit(rc);
+	}
+	int st = 0;
+	waitpid(pid, &st, 0);
+	std::string res = "crash";
+	if (WIFEXITED(st) && WEXITSTATUS(st) == 0) res = "ok";
+	else if (WIFEXITED(st) && WEXITSTATUS(st) == 3) res = "rejected";
+	else if (WIFSIGNALED(st) && WTERMSIG(st) == SIGALRM) res = "hang";
+	Out("tp_parse res=" + res);
 }
